@@ -321,6 +321,14 @@ LONG_IN = [1023, 1024, 1025, 1500, 2047, 2048, 2049, 2600, 3001]
 @st.composite
 def long_case(draw, tier="quick"):
     m = draw(st.sampled_from(LONG_IN))
+    if draw(st.integers(0, 4)) == 0:
+        # an output one or two samples longer than a power-of-two-sized input: block-wise evaluations end with a block
+        # of a single output sample
+        m = draw(st.sampled_from([2048, 2048, 4096, 2049, 3000]))
+        return {"m": m, "M": m + draw(st.sampled_from([1, 1, 2])), "thin_in": draw(st.integers(1, 3)), "thin_out": draw(st.integers(1, 5)),
+                "axis": draw(st.integers(0, 1)), "alpha_thin": draw(gen.signed_log(1e-2, 0.4)),
+                "seed": draw(st.integers(0, 2**31 - 1)), "out": draw(st.sampled_from(["none", "none", "dirty"])),
+                "layout": draw(gen.layouts()), "unitary": draw(st.booleans())}
     if draw(st.integers(0, 3)) == 0:
         # a short input onto a very long output axis (more than 2^14 = 16384 output samples, sizes of no special form)
         m = draw(st.integers(8, 60))
